@@ -46,6 +46,7 @@ def run(ctx):
     ok = name in cond.methods
     ctx.ob('IFACE/conditional', cond, cond.methods[name].node if ok else cond.node, ok, 'the conditional wrapper defines %s' % name if ok else 'ConditionalEventSequenceEncoderDecoder lacks %s' % name,
            construct='ConditionalEventSequenceEncoderDecoder.%s' % name)
+  wide_label(ctx)      # location-independent rules first
   lookback(ctx, 'encoder_decoder:LookbackEventSequenceEncoderDecoder')
   lookback(ctx, 'melody_encoder_decoder:KeyMelodyEncoderDecoder')
   wrapper(ctx)
@@ -390,6 +391,47 @@ def noteperf(ctx):
 
 
 # ------------------------------------------------------------------ pianoroll
+def wide_label(ctx):
+  """Location-independent (a type rule): a pianoroll label is a bit mask over input_size pitches, num_classes = 2**input_size
+  (2**88 by default): it only fits Python's unbounded int.  numpy integer arrays are fixed-width (at most 64 bits), so
+  2**<array> wraps for exponents >= 63 and <int> >> <array> / <int> & <array> refuse an int >= 2**63.  Wherever the label is
+  computed or taken apart, no operand may be a numpy value."""
+  ci = ctx.cls('pianoroll_encoder_decoder:PianorollEncoderDecoder')
+  for name, what in (('_event_to_label', 'computed'), ('class_index_to_event', 'taken apart')):
+    m = ci.methods.get(name)
+    if m is None:
+      continue
+    fn = m.node
+    np_names = set()
+    changed = True
+
+    def is_np(x):
+      return any((isinstance(n, ast.Call) and (dotted(n.func) or '').split('.')[0] in ('np', 'numpy')) or (isinstance(n, ast.Name) and n.id in np_names)
+                 for n in ast.walk(x))
+    while changed:
+      changed = False
+      for s in U.walk_stmts(fn):
+        for tgt, val, _op in U.store_targets(s):
+          if isinstance(tgt, ast.Name) and val is not None and tgt.id not in np_names and is_np(val):
+            np_names.add(tgt.id)
+            changed = True
+    label_names = set(m.params()[1:2]) if name == 'class_index_to_event' else set()
+    bad = []
+    for n in ast.walk(fn):
+      if isinstance(n, ast.BinOp) and isinstance(n.op, ast.Pow) and U.const_value(n.left) == 2 and is_np(n.right):
+        bad.append((n, '2**<numpy array> is computed in a fixed-width integer type'))
+      elif isinstance(n, ast.BinOp) and isinstance(n.op, (ast.RShift, ast.BitAnd, ast.Mod, ast.FloorDiv)) and isinstance(n.left, ast.Name) and n.left.id in label_names and is_np(n.right):
+        bad.append((n, 'the label (up to 2**input_size) is combined with a numpy array, which holds at most 64-bit integers'))
+      elif isinstance(n, ast.Call) and (dotted(n.func) or '').split('.')[0] in ('np', 'numpy') and any(
+          isinstance(a, ast.Name) and a.id in label_names for a in n.args):
+        bad.append((n, 'the label (up to 2**input_size) is converted to a numpy value'))
+    for n, why in bad:
+      ctx.ob('PIANOROLL/wide-label', m, n, False, '%s: %s; with the default input_size of 88 every event with a pitch index >= 63 gets a wrong label or raises' % (norm_text(n), why),
+             construct='the label is %s in unbounded Python integers' % what, definite=True)
+    if not bad:
+      ctx.ob('PIANOROLL/wide-label', m, fn, True, 'the label is %s without numpy operands' % what, construct='the label is %s in unbounded Python integers' % what, definite=True)
+
+
 def pianoroll(ctx):
   ci = ctx.cls('pianoroll_encoder_decoder:PianorollEncoderDecoder')
   el = ci.methods['_event_to_label']
